@@ -25,6 +25,9 @@ fn main() {
     if args[1] == "c04-child" {
         std::process::exit(props::c04::child(&args[2..]));
     }
+    if args[1] == "c09-child" {
+        std::process::exit(props::c09::child(&args[2..]));
+    }
     if args[1] == "c10-child" {
         std::process::exit(props::c10::child(&args[2..]));
     }
